@@ -352,6 +352,10 @@ def handVerdict (prop : String) (args res : List String) : Verdict :=
               let (io, ie) := implOuts.getD k ([], none)
               if storeFails ∧ !(savedObs mo).isEmpty ∧ (savedObs io).isEmpty ∧ !(cmds io).contains .pieceDone ∧ ie = some false
               then vOk (tag ++ "-store-fails")
+              -- every block of the script's piece was the real one (the model, which knows the bytes, stores it here), yet the
+              -- implementation ends the connection instead of completing the piece at its last outstanding block
+              else if prop = "C10" ∧ !storeFails ∧ !(savedObs mo).isEmpty ∧ (savedObs io).isEmpty ∧ ie.isSome
+              then vProp "P10-piece-not-completed-at-its-last-outstanding-block" tag
               else vDiff s!"event{k}" m tag
             | none => vOk tag
     | _, _, _ => vBad (joinToks args)
